@@ -272,3 +272,98 @@ REG.add(Contract(M, "resettable.wrapper", "C03",
                  [("self", _thing(TNone())), ("new_value", TInt()), ("func", TCustom(_abstract_func))], _wc,
                  key="resettable.wrapper", modifies=lambda E: [("ghost", "trace", lambda st: ())],
                  pre=lambda E: _ctx_nonnull(E, "self")))
+
+
+# ================================================================ Model.__enter__ / Model.__exit__
+MMOD = "cobra/core/model.py"
+REG.fields.update({"hm_len": "int", "hm_hist": "seqref"})
+
+
+def hm_len(E, st):
+    return E.eng.heap_arr(st, "hm_len")
+
+
+def hm_hist(E, st):
+    return E.eng.heap_arr(st, "hm_hist")
+
+
+def _new_manager(eng, st, E):
+    return st, VRef(fresh("manager", Ref), "HistoryManager")
+
+
+def _hm_init_post(E):
+    """allocation: a new manager is a new object (not on the stack) with an empty history"""
+    h = E["self"].t
+    return z3.And(h != NULL, hm_len(E, E.s1)[h] == 0,
+                  FA([x := qv("hx", Ref)], z3.Implies(x != h, hm_len(E, E.s1)[x] == hm_len(E, E.s0)[x])),
+                  z3.BoolVal(True))
+
+
+REG.add(Contract(M, "HistoryManager.__init__", "C03", [("self", TRef("HistoryManager"))], [Case("new", ensures=_hm_init_post)],
+                 assumed=True, key="HistoryManager.__init__", result=_new_manager, modifies=lambda E: [("heap", "hm_len")],
+                 note="object allocation: the new HistoryManager is a fresh object with an empty history"))
+
+MODELC = ("self", TObj("Model", {"_contexts": TList("ref:HistoryManager")}))
+
+
+def _stack(st, m):
+    return _ctxs(st, m)
+
+
+def _enter_post(E):
+    n0, e0 = _stack(E.s0, E["self"])
+    n1, e1 = _stack(E.s1, E["self"])
+    j = qv("ej")
+    top = e1[n0]
+    return z3.And(z3.BoolVal(isinstance(E.res, VObj) and E.res.oid == E["self"].oid),
+                  n1 == n0 + 1, FA([j], z3.Implies(z3.And(0 <= j, j < n0), e1[j] == e0[j]), patterns=[e1[j]]),
+                  top != NULL, hm_len(E, E.s1)[top] == 0, world(E.s1) == world(E.s0))
+
+
+def _stack_loc(E):
+    return [("list", E.s0.objs[E["self"].oid]["attr:_contexts"]), ("heap", "hm_len")]
+
+
+REG.add(Contract(MMOD, "Model.__enter__", "C03", [MODELC], [Case("push_new_context", ensures=_enter_post)],
+                 modifies=_stack_loc, key="Model.__enter__", result="self"))
+
+
+def reset_on_ref(eng, st, recv, name, pos, kw):
+    """HistoryManager.reset on a manager taken from the stack, by the contract proved above (world := run(history), history
+    emptied).  Obligation: while the undo functions run, the model's context stack is EMPTY, so that a context-aware undo function
+    cannot record itself in an enclosing context."""
+    if isinstance(recv, VRef) and recv.cls == "HistoryManager" and name == "reset":
+        m = eng.entry_args["self"]
+        n_now, _ = _ctxs(st, m)
+        eng.oblige(st, n_now == 0, "exit/context-stack-hidden-while-undoing", kind="side")
+        ln, hs = eng.heap_arr(st, "hm_len"), eng.heap_arr(st, "hm_hist")
+        w1 = run(hs[recv.t], ln[recv.t], world(st))
+        st2 = st.setghost("world", w1).setheap("hm_len", z3.Store(ln, recv.t, z3.IntVal(0)))
+        return [("ok", st2, NONE)]
+    return None
+
+
+HOOKS_EXIT = dict(HOOKS, call_method=reset_on_ref)
+
+
+def _exit_post(E):
+    n0, e0 = _stack(E.s0, E["self"])
+    n1, e1 = _stack(E.s1, E["self"])
+    top = e0[n0 - 1]
+    j, x = qv("xj"), qv("xx", Ref)
+    return z3.And(n1 == n0 - 1, FA([j], z3.Implies(z3.And(0 <= j, j < n0 - 1), e1[j] == e0[j]), patterns=[e1[j]]),
+                  world(E.s1) == run(hm_hist(E, E.s0)[top], hm_len(E, E.s0)[top], world(E.s0)),
+                  hm_len(E, E.s1)[top] == 0,
+                  FA([x], z3.Implies(x != top, hm_len(E, E.s1)[x] == hm_len(E, E.s0)[x])))
+
+
+def _exit_mod(E):
+    return [("attr", E["self"], "_contexts", lambda st: alloc_list(st, "ref:HistoryManager")), ("heap", "hm_len"),
+            ("ghost", "world", lambda st: fresh("world", World))]
+
+
+_x = [("self", MODELC[1]), ("type", TNone()), ("value", TNone()), ("traceback", TNone())]
+REG.add(Contract(MMOD, "Model.__exit__", "C03", _x, [
+    Case("innermost_context", requires=lambda E: _stack(E.s0, E["self"])[0] > 0, ensures=_exit_post),
+    Case("no_context", requires=lambda E: _stack(E.s0, E["self"])[0] <= 0, raises="IndexError"),
+], modifies=_exit_mod, key="Model.__exit__", axioms=lambda E: run_axioms()))
